@@ -34,13 +34,21 @@ Definition sbind {S A B} (m : sres S A) (f : S -> A -> sres S B) : sres S B :=
   end.
 Definition sret {S A} (s : S) (r : res A) : sres S A := (s, r).
 
-(* does any typeToSize[...] site of this source file index with a signed expression? *)
-Definition tts_signed (file : string) : bool :=
+(* does any typeToSize[...] site of this source file index with a signed expression?
+   Evaluated when this file is compiled (on every run, from the regenerated Gen/Consts.v), so
+   that the extracted model carries plain booleans. *)
+Definition file_signed (file : string) : bool :=
   existsb (fun s => String.eqb (fst s) file && (snd s =? 1)%Z) thrift_typeToSize_index_sites.
+Definition signed_binary : bool := Eval vm_compute in file_signed "binary".
+Definition signed_bufferreader : bool := Eval vm_compute in file_signed "bufferreader".
+Definition signed_tpl : bool := Eval vm_compute in file_signed "skipdecoder_tpl".
+Inductive site := SBinary | SBufferReader | STpl.
+Definition tts_signed (s : site) : bool :=
+  match s with SBinary => signed_binary | SBufferReader => signed_bufferreader | STpl => signed_tpl end.
 
 (* typeToSize[uint8(t)] (or typeToSize[t] with t int8 when the site is signed): [t] is the raw byte *)
-Definition tts (file : string) (t : N) : res Z :=
-  if tts_signed file && (128 <=? t) then Panic 3
+Definition tts (s : site) (t : N) : res Z :=
+  if tts_signed s && (128 <=? t) then Panic 3
   else match nth_error thrift_typeToSize (N.to_nat t) with
        | Some z => Ok z
        | None => Panic 2
@@ -128,7 +136,7 @@ Definition b_elem (self : N -> N -> res N) (b : bytes) (e : N) (sz : Z) (t : N) 
 
 (* one struct field: typeToSize[uint8(ft)] > 0 ? that size : STRING ? skipstr : skipType *)
 Definition b_field (self : N -> N -> res N) (b : bytes) (e : N) (ft : N) (q : N) : res N :=
-  do fsz <- tts "binary" ft;
+  do fsz <- tts SBinary ft;
   b_elem self b e fsz ft q.
 
 (* ---------- skipType (binary.go:446-579) ---------- *)
@@ -136,7 +144,7 @@ Fixpoint bskip (d : nat) (b : bytes) (e : N) (fu : nat) (p : N) (t : N) {struct 
   match d with
   | O => Err e_depth
   | S d' =>
-    do n <- tts "binary" t;
+    do n <- tts SBinary t;
     if (0 <? n)%Z then
       if e <? p + Z.to_N n then Err e_too_short else Ok (Z.to_N n)
     else if is_ty t thrift_STRING then b_skipstr b e p
@@ -147,8 +155,8 @@ Fixpoint bskip (d : nat) (b : bytes) (e : N) (fu : nat) (p : N) (t : N) {struct 
       do u <- ld32 b (p + 2);
       let sz := i32 u in
       if (sz <? 0)%Z then Err e_neg_size else
-      do ksz <- tts "binary" kt;
-      do vsz <- tts "binary" vt;
+      do ksz <- tts SBinary kt;
+      do vsz <- tts SBinary vt;
       if (0 <? ksz)%Z && (0 <? vsz)%Z then              (* fast path *)
         let kv := Z.to_N (sz * (ksz + vsz)) in
         if e <? p + (6 + kv) then Err e_too_short else Ok (6 + kv)
@@ -162,7 +170,7 @@ Fixpoint bskip (d : nat) (b : bytes) (e : N) (fu : nat) (p : N) (t : N) {struct 
       do u <- ld32 b (p + 1);
       let sz := i32 u in
       if (sz <? 0)%Z then Err e_neg_size else
-      do vsz <- tts "binary" vt;
+      do vsz <- tts SBinary vt;
       if (0 <? vsz)%Z then                               (* fast path *)
         let lv := Z.to_N (sz * vsz) in
         if e <? p + (5 + lv) then Err e_too_short else Ok (5 + lv)
